@@ -7,6 +7,7 @@ pub mod expect;
 pub mod gen;
 pub mod props;
 pub mod refcodec;
+pub mod refmac;
 pub mod refregion;
 pub mod script;
 pub mod snapshot;
@@ -46,6 +47,7 @@ macro_rules! dispatch {
             "C04" => $f(&props::c04::C04, $($arg),*),
             "C05" => $f(&props::c05::C05, $($arg),*),
             "C06" => $f(&props::c06::C06, $($arg),*),
+            "C08" => $f(&props::c08::C08, $($arg),*),
             "C10" => $f(&props::c10::C10, $($arg),*),
             other => {
                 println!("HARNESS-ERROR unknown property {other}");
